@@ -283,3 +283,27 @@ func forEachScaledProgram(r *harness.Run, f func(w int, p engineProgram)) {
 		r.NotExhaustive("scaled programs not completed")
 	}
 }
+
+// forEachDataFamilyFile re-enumerates the C06 (hoisted text / moves) and C08 (mapscripts) file families at a reduced
+// bound, plus the file-level programs, and hands every generated file to f (the families' own oracles do not run).
+func forEachDataFamilyFile(r *harness.Run, tier string, f func(fp *fileProgram)) {
+	for _, fp := range fileLevelPrograms(tier) {
+		f(fp)
+	}
+	c04Tap = f
+	defer func() { c04Tap = nil }()
+	slots, ents := 2, 2
+	if tier == "thorough" {
+		slots, ents = 3, 3
+	}
+	if !r.Expired() {
+		c06Enumerate(r, slots, []int{0, 5, 9}, func(data []datum, dist []int, rot, clash int) { c06Eval(r, data, dist, rot, clash) })
+	}
+	if !r.Expired() {
+		c08Enumerate(r, 2, ents, func(entries []c08Entry, scope string, opt bool) {
+			if opt {
+				c08Eval(r, entries, scope, opt, map[string]string{"PV": "SEL"})
+			}
+		})
+	}
+}
